@@ -4,7 +4,7 @@ CONSTANTS
   T = 3
   Stateless = TRUE
   MaxSlots = 2
-  MaxParked = 1
+  MaxParked = 2
 VIEW CoverView
 INVARIANTS NoTimeoutDuringPost ClosedAndForgotten TimerDiscipline
 CHECK_DEADLOCK FALSE
